@@ -100,7 +100,7 @@ func TestC01(t *testing.T) {
 
 	rcheck(t, "requests", V.N(2500, 20000), func(rt *rapid.T) {
 		s := pick(rt)
-		rc := s.gRelayRequest(rt, relayOpts{Paths: []string{"backend", "route", "static"}, MaxVias: 4, MaxRRs: 2, MaxExt: 40, MaxLong: 16384, MaxBody: 60000})
+		rc := s.gRelayRequest(rt, relayOpts{JoinOpaque: true, Paths: []string{"backend", "route", "static"}, MaxVias: 4, MaxRRs: 2, MaxExt: 40, MaxLong: 16384, MaxBody: 60000})
 		V.Journal(t.Name()+"/requests", rc)
 		res, err := s.runRequest(rc)
 		if _, lost := err.(labLost); lost {
